@@ -132,8 +132,37 @@ func (x *Exec) havocLoop(st *State, l *Loop) {
 		st.cells[a] = nv
 		x.enterFacts(st, nv, t)
 	}
-	// shared captured cells
 	x.havoc(st, l.Mods)
+	x.rangeIndexInvariant(st, l)
+}
+
+// rangeIndexInvariant: engine-supplied invariant of a lowered `range` over a slice, array or
+// integer: the hidden index cell satisfies -1 <= rangeindex < len at the loop head (it is
+// incremented by the head only, compared with a length computed before the loop, and cannot
+// be named by the body).
+func (x *Exec) rangeIndexInvariant(st *State, l *Loop) {
+	h := l.Head
+	if len(h.Instrs) < 5 {
+		return
+	}
+	ld, ok1 := h.Instrs[0].(*ssa.UnOp)
+	inc, ok2 := h.Instrs[1].(*ssa.BinOp)
+	stI, ok3 := h.Instrs[2].(*ssa.Store)
+	cmpI, ok4 := h.Instrs[3].(*ssa.BinOp)
+	_, ok5 := h.Instrs[4].(*ssa.If)
+	if !(ok1 && ok2 && ok3 && ok4 && ok5) {
+		return
+	}
+	cell, ok := ld.X.(*ssa.Alloc)
+	if !ok || cell.Comment != "rangeindex" || stI.Addr != ssa.Value(cell) || inc.X != ssa.Value(ld) || cmpI.X != ssa.Value(inc) || cmpI.Op != token.LSS {
+		return
+	}
+	ri, ok := st.cells[cell]
+	if !ok {
+		return
+	}
+	n := x.term(st, x.val(st, cmpI.Y), cmpI.Y.Type())
+	st.add(Ge(ri, IntLit(-1)), Or(Lt(ri, n), Eq(ri, IntLit(-1))))
 }
 
 func rootAlloc(v ssa.Value) *ssa.Alloc {
